@@ -63,6 +63,10 @@ class LruRun:
         self.last_use = {}     # key -> step of the last store / hit
         self.activity = []     # (step, key) of every call begin / progress
         self.stored_at = {}    # value -> (key, step, vtime) of the execution that produced it
+        self.exp_hits = 0      # cache_info accounting expected from the observed history
+        self.exp_misses = 0
+        self.crash = None
+        self.acct_reported = False
 
     # ------------------------------------------------------------------ set-up
     def __enter__(self):
@@ -125,7 +129,16 @@ class LruRun:
         return float(a // 2) if a % 2 else a // 2
 
     def dkey(self, t) -> int:
-        return 2 * int(t[0]) + (1 if t[1] is float else 0) if self.typed else int(t[0])
+        try:
+            if self.typed:
+                if len(t) != 2 or t[1] not in (int, float):
+                    return -1
+                return 2 * int(t[0]) + (1 if t[1] is float else 0)
+            if len(t) != 1:
+                return -1
+            return int(t[0])
+        except (TypeError, ValueError, IndexError):
+            return -1
 
     # ------------------------------------------------------------------ observation
     def real_dict(self):
@@ -178,6 +191,10 @@ class LruRun:
             return (code, 0) in en
         return (code, x) in en
 
+    def served_unexpired(self, entry) -> bool:
+        exp = entry[2]
+        return exp is None or self.world.loop.time() < exp
+
     # ------------------------------------------------------------------ one op
     def do(self, code: int, x: int = 0, y: int = 0):
         w = self.world
@@ -229,6 +246,8 @@ class LruRun:
             self.clean = False
             self.last_use.clear()
             self.flags.add("clear")
+            if self.effmax != 0:
+                self.exp_hits = self.exp_misses = 0
         # ---- classify what happened to the acting caller
         info1 = self.cached.cache_info()
         rk, rv = 5, 0
@@ -237,6 +256,8 @@ class LruRun:
             started = len(self.execs) > nexec0 and self.execs[-1]["caller"] == actor
             if started and call["exec"] is None:
                 call["exec"] = self.execs[-1]
+                if self.effmax != 0:
+                    self.exp_misses += 1
             if out is None:
                 rk, rv = 9, 0
             elif out[0] == "blocked":
@@ -244,9 +265,13 @@ class LruRun:
                 call["blocked"] = True
                 if started:
                     self.stage[actor] = "wrapped"
-                elif code == 0 and info1.hits > info0.hits:
+                elif code == 0 and self.ackpt and self.effmax != 0 and call["key"] in before \
+                        and before[call["key"]][1] is None and self.served_unexpired(before[call["key"]]):
+                    # a completed, unexpired entry was there: the call is in the hit checkpoint
                     self.stage[actor] = "hitck"
                     self.flags.add("hit_checkpoint")
+                    call["hit_counted"] = True
+                    self.exp_hits += 1
                 elif code == 0:
                     self.stage[actor] = "lock"
                     if call["overlap"] is not None:
@@ -256,6 +281,10 @@ class LruRun:
                 self.curcall.pop(actor, None)
                 call["end"] = self.stepno
                 rk, rv = self.finish_call(actor, call, out)
+                if rk == 0 and call["exec"] is None and not call.get("hit_counted"):
+                    self.exp_hits += 1
+                if rk == 0 and self.effmax == 0:
+                    self.exp_misses += 1
         # ---- harness-side known-finding predicates, read off the real dict
         after = {self.dkey(t): e for t, e in self.real_dict()}
         if code != 6:
@@ -280,6 +309,10 @@ class LruRun:
         self.step_obs.append(obs)
         if info1.maxsize != self.effmax or info1.ttl != self.ttl:
             self.mon.append(f"cache_info reports maxsize={info1.maxsize} ttl={info1.ttl}")
+        if (info1.hits, info1.misses) != (self.exp_hits, self.exp_misses) and not self.acct_reported:
+            self.acct_reported = True
+            self.mon.append(f"cache_info accounting: hits={info1.hits} misses={info1.misses} but the history has "
+                            f"{self.exp_hits} calls served from the cache and {self.exp_misses} executions")
         return rk, rv
 
     # ------------------------------------------------------------------ monitors evaluated when a call finishes
@@ -369,7 +402,9 @@ class LruRun:
             if prev is call or prev["key"] != k or prev["end"] is None or prev["end"] >= call["begin"]:
                 continue
             if prev["result"] and prev["result"][0] == "ok":
-                t1 = prev["end"] if t1 is None else max(t1, prev["end"])
+                # the position of the entry dates from the install / last move_to_end, i.e. not before the
+                # beginning of the last successful call
+                t1 = prev["begin"] if t1 is None else max(t1, prev["begin"])
         if t1 is None:
             return
         others = {kk for (s, kk) in self.activity if s >= t1 and kk != k}
@@ -458,18 +493,23 @@ class LruRun:
 def run_script(cfg, flat_ops, quiesce=True, strict=False):
     with LruRun(cfg["maxsize"], cfg["ttl"], cfg["always_checkpoint"], cfg["typed"], cfg["ncall"]) as r:
         r.valid = True
-        for i in range(0, len(flat_ops), 3):
-            if not r.op_enabled(flat_ops[i], flat_ops[i + 1]):
-                r.valid = False
-                if strict:
-                    break
-                continue
-            if flat_ops[i] == 1:
-                r.nextval = max(r.nextval, flat_ops[i + 2] + 1)
-            r.do(flat_ops[i], flat_ops[i + 1], flat_ops[i + 2])
-        r.enabled_at_end = r.enabled()
-        if quiesce:
-            r.quiesce()
+        r.enabled_at_end = []
+        try:
+            for i in range(0, len(flat_ops), 3):
+                if not r.op_enabled(flat_ops[i], flat_ops[i + 1]):
+                    r.valid = False
+                    if strict:
+                        break
+                    continue
+                if flat_ops[i] == 1:
+                    r.nextval = max(r.nextval, flat_ops[i + 2] + 1)
+                r.do(flat_ops[i], flat_ops[i + 1], flat_ops[i + 2])
+            r.enabled_at_end = r.enabled()
+            if quiesce:
+                r.quiesce()
+        except Exception as e:  # noqa: BLE001  (the harness could not drive this implementation)
+            r.crash = f"{type(e).__name__}: {e}"
+            r.valid = False
         return r
 
 
@@ -490,20 +530,24 @@ def random_case(rng: random.Random, nsteps: int):
            5: (rng.choice([0.5, 2]) if cfg["ttl"] is not None else 0.05), 6: 0.15}
     with LruRun(cfg["maxsize"], cfg["ttl"], cfg["always_checkpoint"], cfg["typed"], cfg["ncall"]) as r:
         r.valid = True
-        for _ in range(nsteps):
-            en = r.enabled()
-            c, x = rng.choices(en, [wts[e[0]] for e in en])[0]
-            if c == "call":
-                v = rng.randrange(nkeys)
-                a = 2 * v + (1 if rng.random() < (0.3 if cfg["typed"] else 0.1) else 0)
-                r.do(0, x, a)
-            elif c == 1:
-                r.do(1, x, r.fresh())
-            elif c == 2:
-                r.do(2, x, rng.randrange(3))
-            else:
-                r.do(c, x, 0)
-        r.quiesce()
+        try:
+            for _ in range(nsteps):
+                en = r.enabled()
+                c, x = rng.choices(en, [wts[e[0]] for e in en])[0]
+                if c == "call":
+                    v = rng.randrange(nkeys)
+                    a = 2 * v + (1 if rng.random() < (0.3 if cfg["typed"] else 0.1) else 0)
+                    r.do(0, x, a)
+                elif c == 1:
+                    r.do(1, x, r.fresh())
+                elif c == 2:
+                    r.do(2, x, rng.randrange(3))
+                else:
+                    r.do(c, x, 0)
+            r.quiesce()
+        except Exception as e:  # noqa: BLE001
+            r.crash = f"{type(e).__name__}: {e}"
+            r.valid = False
         return r
 
 
@@ -686,10 +730,16 @@ def check(tier: str) -> int:
         tie_broken.append("correspondence Lru.run_case vs anyio.functools.lru_cache")
     if rejected:
         tie_broken.append(f"model rejected {rejected} ops the implementation performed")
+    crashed = [r for r in runs if r.crash]
+    if crashed:
+        tie_broken.append(f"harness could not drive the implementation in {len(crashed)} cases: {crashed[0].crash}")
     if not vm_ok and not disagreements:
         tie_broken.append("vm_compute sample disagrees with extracted model")
     if tie_broken and not viol:
         d = min(disagreements, key=lambda d: len(d["ops"])) if disagreements else None
+        if d is None and crashed:
+            cr = min(crashed, key=lambda r: len(r.ops))
+            d = {"cfg": cr.cfg(), "ops": cr.ops, "ops_readable": readable(cr.ops), "crash": cr.crash}
         rep.violation("; ".join(tie_broken), {"kind": "tie", "broken": tie_broken, "case": d}, no_input=True)
 
     flags = {}
@@ -750,3 +800,22 @@ def check(tier: str) -> int:
         if not flags.get(need):
             rep.notes.append(f"generator self-check: predicate {need} never reached")
     return rep.finish()
+
+
+def replay(path: str) -> int:
+    """Re-run a replay / corpus file on the implementation and print what the monitors say."""
+    c = json.loads(open(path).read())
+    case = c.get("case") or c
+    r = run_script(case["cfg"], case["ops"])
+    print("cfg", r.cfg())
+    for (name, x, y), obs in zip(readable(r.ops), r.step_obs):
+        print(f"  {name}({x},{y}) -> {obs}")
+    print("evicts_inflight", r.fi, "evicts_waited", r.fw, "crash", r.crash)
+    for m in r.mon:
+        print("MONITOR:", m)
+    return 1 if r.mon and not (r.fi or r.fw) else 0
+
+
+if __name__ == "__main__":
+    import sys
+    sys.exit(replay(sys.argv[1]))
